@@ -245,7 +245,11 @@ BinStmt(op, l, r) ==
 LitForms == { <<"1", "Int", "1">>, <<"-3", "Int", "-3">>, <<"2.5", "Float", "2.5">>, <<"-2.5", "Float", "-2.5">>,
               <<"2im", "ImaginaryInt", "2">>, <<"-2im", "ImaginaryInt", "-2">>, <<"2.5im", "ImaginaryFloat", "2.5">>,
               <<"-2.5 im", "ImaginaryFloat", "-2.5">>, <<"true", "Bool", "true">>, <<"\"0101\"", "BitString", "0101">>,
-              <<"10ns", "TimingIntLiteral", "10">>, <<"2.5us", "TimingFloatLiteral", "2.5">> }
+              <<"10%%SEP;ns", "TimingIntLiteral", "10">>, <<"2.5%%SEP;us", "TimingFloatLiteral", "2.5">>,
+              <<"10%%SEP;%%00B5;s", "TimingIntLiteral", "10">>, <<"3%%SEP;dt", "TimingIntLiteral", "3">>, <<"4%%SEP;ms", "TimingIntLiteral", "4">>,
+              <<"1.5%%SEP;s", "TimingFloatLiteral", "1.5">>, <<"7%%SEP;im", "ImaginaryInt", "7">> }
+(* %%SEP; marks a token boundary where trivia is optional (number | unit): the harness glues the two tokens in some layouts *)
+(* and separates them in others (C17); %%00B5; is the micro sign.                                                         *)
 LitStmt(f) == Finish([op |-> "litstmt", t |-> f[1]], stack, syms, <<>>, <<"ExprStmt", <<"Lit", f[2], f[3]>> >>, TRUE)
 
 UseStmt(n) ==
